@@ -115,6 +115,8 @@ def gen_obj(r, ids, depth, kind=None):
                                      ["__class__", auto(ids, "class")],
                                      ["__doc__", auto(ids, "inst", of="none", callable=False)]], r.randint(1, 2))
         elif kind in ("class", "exc"):
+            if sp["hook"] != "init" and r.random() < .5:     # the probe's `TrapExc.__init__`: a callable that is no type
+                sp["attrs"].append(["__init__", auto(ids, "inst", of="init", callable=True)])
             sp["attrs"] += r.sample([["__name__", auto(ids, "inst", of="str", callable=False)],
                                      ["__mro__", auto(ids, "inst", of="tuple", callable=False)],
                                      ["__class__", auto(ids, "class")],
@@ -419,6 +421,15 @@ def oracle(case, obs):
     specs = all_specs(env)
     res = obs["res"]
     kind = res[0]
+    # "never calls a function or instantiates a class that is not a BaseException subclass"
+    for e in obs["eff"]:
+        if e[0] == "call":
+            out.append(("load called a resolved object that is not an exception class", dict(clause="call", kind=specs[e[1]]["kind"])))
+        elif e[0] == "inst" and specs[e[1]]["kind"] != "exc":
+            out.append(("load instantiated a class that is not a BaseException subclass", dict(clause="instantiate")))
+    # "never imports a module that is not already loaded"
+    if obs["newmods"]:
+        out.append(("load imported a module that was not loaded", dict(clause="import", modules=obs["newmods"][:3])))
     # "either yields an exception instance or fails with a security/validation error"
     if kind == "ok":
         if (res[1] is None) != (raw["k"] == "none"):
@@ -437,15 +448,6 @@ def oracle(case, obs):
     else:
         out.append(("load neither yields an exception instance nor fails with a security/validation error",
                     dict(clause="outcome", detail=str(res[1])[:80])))
-    # "never calls a function or instantiates a class that is not a BaseException subclass"
-    for e in obs["eff"]:
-        if e[0] == "call":
-            out.append(("load called a resolved object that is not an exception class", dict(clause="call", kind=specs[e[1]]["kind"])))
-        elif e[0] == "inst" and specs[e[1]]["kind"] != "exc":
-            out.append(("load instantiated a class that is not a BaseException subclass", dict(clause="instantiate")))
-    # "never imports a module that is not already loaded"
-    if obs["newmods"]:
-        out.append(("load imported a module that was not loaded", dict(clause="import", modules=obs["newmods"][:3])))
     # "a type that cannot be resolved yields a synthetic exception class of that name" (every node of a loaded tree)
     if kind == "ok" and res[1] is not None:
         def walk(n, t):
@@ -565,7 +567,7 @@ def ceff(obs):
         else:
             out.append("(OSynth %s %s)" % (cname(e[1]), csmod(e[2])))
     out += ["(OImport %s)" % cname(m) for m in obs["newmods"]]
-    return "[" + "; ".join(out) + "]"
+    return "[" + "; ".join(out) + "]" if out else "(@nil oeffect)"
 
 
 COQ_HEADER = """From Coq Require Import List NArith Bool. Import ListNotations.
@@ -642,6 +644,36 @@ def coverage(rep, c, o):
         rep.count("effect:" + e[0])
 
 
+def grid_cases(env):
+    """thorough tier: every (top, cause, context) combination of one representative node per model branch, all entries"""
+    core = env["mods"][0]
+    m = core["name"]
+    ar = [c for s_, c in core["obj"]["attrs"] if s_ == "Arity"][0]["ctor"][1]
+    reps = [(m, "TrapExc", 1), (m, "Arity", ar), (m, "Arity", ar + 1), (m, "Never", 1), (m, "Interrupts", 0),
+            (m, "Holder", 1), (m, "Holder.inner", 2), (m, "Holder.fn", 1), (m, "trapfn", 1), (m, "callme", 1), (m, "thing", 0),
+            (m, "err", 0), (m, "err.__class__", 1), (m, "part", 0), (m, "part.Deep", 1), ("builtins", "eval", 1),
+            ("os", "system", 1), ("builtins", "ValueError", 1), ("lg_absent_mod", "Boom", 1), ("lg_unloaded_0", "Boom", 1),
+            (m, "zz_absent", 1), (m, "TrapExc.", 0), (None, "Synth", 1), (None, "A\x00B", 0)]
+
+    def node(rep, tag):
+        md, ty, n = rep
+        return dict(k="dict", ty=dict(ok=ty), md=dict(ok=md), args=dict(ok=[tag + i for i in range(n)]),
+                    sup=dict(ok=bool(tag % 2), **{"as": bool(tag % 2)}), cause=dict(k="none", omit=True),
+                    ctx=dict(k="none", omit=True))
+    out = []
+    for entry in ENTRIES:
+        for a in reps:
+            for b in [None] + reps:
+                for c in [None] + reps:
+                    raw = node(a, 1)
+                    if b:
+                        raw["cause"] = node(b, 10)
+                    if c:
+                        raw["ctx"] = node(c, 20)
+                    out.append(dict(env=env, entry=entry, raw=raw))
+    return out
+
+
 SPECIALS = [dict(special="lazy_getattr"), dict(special="forged_class"), dict(special="pickle_path")]
 
 
@@ -660,10 +692,15 @@ def run(ctx):
     corpus = [c for _name, c in C.load_corpus("C20")]
     if corpus:
         explore(ctx, rep, corpus, "corpus")
-    envs = make_envs(ctx, ctx.n(8, 60))
+    envs = make_envs(ctx, ctx.n(8, 40))
     r = ctx.sub_rng("gen")
-    cases = [gen_case(r, envs) for _ in range(ctx.n(int(__import__("os").environ.get("LG_N", "2400")), 60000))]
+    cases = [gen_case(r, envs) for _ in range(ctx.n(2400, 30000))]
     broken = explore(ctx, rep, cases, "main")
+    if not ctx.quick:
+        grid = grid_cases(envs[0][0])
+        broken = explore(ctx, rep, grid, "grid") or broken
+        rep.extra["small_scope_exhaustive"] = ("%d cases: every (top, cause, context) combination of 24 representative nodes "
+                                               "(one per model branch) x 3 entry points on environment 0" % len(grid))
     sp = C.run_driver(ctx, "loadgate_driver", SPECIALS, nproc=1)
     rep.extra["observations_outside_scope"] = sp
     if (broken or any(not o["ok"] for o in rep.obligations)) and not rep.failures:
